@@ -252,7 +252,8 @@ func (t *Dense) TensorMul(other Tensor, axesA, axesB []int) (retVal *Dense, err 
 	newAxesA := BorrowInts(len(notins) + len(axesA))
 	defer ReturnInts(newAxesA)
 	newAxesA = newAxesA[:0]
-	newAxesA = append(notins, axesA...)
+	newAxesA = append(newAxesA, notins...) // not append(notins, ...): notins is reused below and would be overwritten
+	newAxesA = append(newAxesA, axesA...)
 	n2 := 1
 	for _, a := range axesA {
 		n2 *= ts[a]
@@ -288,7 +289,8 @@ func (t *Dense) TensorMul(other Tensor, axesA, axesB []int) (retVal *Dense, err 
 	newAxesB := BorrowInts(len(notins) + len(axesB))
 	defer ReturnInts(newAxesB)
 	newAxesB = newAxesB[:0]
-	newAxesB = append(axesB, notins...)
+	newAxesB = append(newAxesB, axesB...) // not append(axesB, ...): that may write into the caller's slice
+	newAxesB = append(newAxesB, notins...)
 
 	newShapeO := Shape(BorrowInts(2))
 	defer ReturnInts(newShapeO)
